@@ -535,14 +535,14 @@ def check(pid, cfg, tier, seed):
                         if k:
                             known_hits.setdefault(k["id"], k)
                             continue
-                        small = ddmin(fl["ops"], lambda c, _a=fl["assertion"]: spec_pred(c, _a))
+                        small = ddmin(fl.get("ops") or [], lambda c, _a=fl["assertion"]: spec_pred(c, _a))
                         rr = replay_seq(e["name"], pid, small, work, "shr")[2]
                         det = next((x["detail"] for x in rr.get("spec_failures") or [] if x["assertion"] == fl["assertion"]), fl["detail"])
                         violations.append({"kind": "oracle", "assertion": fl["assertion"], "engine": e["name"], "ops": small,
                                            "detail": "the model's view (which the implementation reproduces on this sequence) "
                                                      "disagrees with the reference rules: " + det})
                     for fl in (r["stats"] or {}).get("failures") or []:
-                        seq = fl["ops"]
+                        seq = fl.get("ops") or []
                         k = match_finding(findings, pid, fl["assertion"], fl["detail"])
                         if k:
                             known_hits.setdefault(k["id"], k)
